@@ -122,7 +122,7 @@ def run_real_scheduler(ctx, n_ens, workers, steps, seed, rng, image=None, weight
             S.setup_internal, S.setup_runner = s_int, s_run
         rec["unconsumed"] = len(futures)
         rec["cstep"] = st.cstep
-        rec["locked_mem"] = [(list(e), list(p)) for e, p in st.locked]
+        rec["locked_mem"] = [(list(t[0]), list(t[1])) for t in st.locked]
         rec["image"] = T.read_image(sim.tmp) if os.path.exists(os.path.join(sim.tmp, "restart.toml")) else None
         rec["weights"] = {pn: v["weights"] for pn, v in st.traj_data.items()}
     except Exception as e:  # noqa: BLE001
